@@ -11,10 +11,10 @@ reported when that dial fails, observed on the real `Swarm` through the shared s
 
 `Mon8` is a trace monitor over the implementation's lines only (it never looks at the model):
 * `C08:address_attempted_twice` — the `Transport::dial` calls of one dial are not pairwise distinct;
-* `C08:errors_not_attempted_exactly_once` — a reported `DialError::Transport` list is not a
-  permutation of the addresses attempted for that connection;
+* `C08:errors_not_attempted_exactly_once` — some attempted address does not appear exactly once in the
+  reported `DialError::Transport` list of that connection;
 * `C08:failed_before_success_not_attempted_once` — the `concurrent_dial_errors` of an established
-  connection contain an address twice or one that was never attempted.
+  connection contain an address twice, or all attempted addresses (although one of them succeeded).
 -/
 namespace Swarm.C08
 open Swarm
@@ -46,13 +46,23 @@ def tdialsOf (evs : List Ev) : List Maddr :=
 
 def Mon8.attOf (m : Mon8) (c : Nat) : List Maddr := ((m.att.find? (·.1 == c)).map (·.2)).getD []
 
+def count (a : Maddr) (l : List Maddr) : Nat := (l.filter (· == a)).length
+
+/-- every attempted address appears exactly once in the reported list.  (The list may hold further entries:
+addresses that `Swarm::dial` rejected BEFORE any attempt — `with_p2p` on an address ending in another peer's
+`/p2p` — are reported as `MultiaddrNotSupported` without a transport dial.) -/
+def coversOnce (att reported : List Maddr) : Bool := att.all fun a => count a reported == 1
+
 def checkEv (m : Mon8) : Ev → List String
   | .sOutgoingError c _ (.transport errs) =>
-    if isPerm (errs.map (·.1)) (m.attOf c) then [] else ["C08:errors_not_attempted_exactly_once"]
+    if coversOnce (m.attOf c) (errs.map (·.1)) then [] else ["C08:errors_not_attempted_exactly_once"]
   | .bDialFailure c _ (.transport errs) =>
-    if isPerm (errs.map (·.1)) (m.attOf c) then [] else ["C08:errors_not_attempted_exactly_once"]
+    if coversOnce (m.attOf c) (errs.map (·.1)) then [] else ["C08:errors_not_attempted_exactly_once"]
   | .sEstablished c _ true _ failed =>
-    if nodup failed && failed.all (fun a => (m.attOf c).contains a) then [] else ["C08:failed_before_success_not_attempted_once"]
+    -- concurrent_dial_errors: the addresses that failed before the successful one — no address twice, and
+    -- not every attempted address can be in it (one succeeded)
+    if nodup failed && ((m.attOf c).isEmpty || !(m.attOf c).all (fun a => failed.contains a)) then []
+    else ["C08:failed_before_success_not_attempted_once"]
   | _ => []
 
 /-- the monitor step: `args` = the op tokens, `outs` = the implementation's tokens -/
